@@ -14,7 +14,7 @@ CHECKS = {
   "Every ordered pair of builds of the stated families (block-level F1, shape-level F2 x all 20 compression settings, limit family F3 around 4MiB/8MiB runs, file-sequence family F4: every ordered triple of new files from a menu of ways to reuse two old files, weak-twin family F5: blocks that share the rolling checksum of another block but not its bytes) goes through the real WritePatch -> patcher -> fresh bowl; the output tree is compared entry by entry with the new build. Exhaustive within the families.",
   "Byte values outside the seeded block alphabet are not enumerated; file modes are not compared.", "DESIGN.md#c01"),
  "C02": ("model_checking", E1 + " over tree pairs containing every rename/swap/chain/duplicate/kind change on 2-3 names; pre-commit and post-commit snapshots",
-  "All 4096 pairs of P1 (rename relations), all 6561 pairs of P2 (kind changes, 9 per-name states incl. a directory with content two levels deep), P4 (three names x six kinds/shapes, one content: all 46656 pairs in thorough, every 13th in quick), block-level P3 with plain and optimized patches, applied in place through the real overlay bowl; old build must be untouched before Commit, directory must equal the new build after. Sub-check map-orders enumerates every iteration order of the maps the commit phase ranges over (pwr/bowl rebuilt with range-over-map rewritten to an explored key order).",
+  "All 4096 pairs of P1 (rename relations), all 6561 pairs of P2 (kind changes, 9 per-name states incl. a directory with content two levels deep), P4 (three names x six kinds/shapes, one content: all 46656 pairs in thorough, every 13th in quick), block-level P3 with plain and optimized patches, applied in place through the real overlay bowl; old build must be untouched before Commit, directory must equal the new build after. Variant xdev repeats P1, P2, P4 with every rename of the commit phase failing as across file systems (copy + remove fallback). Sub-check map-orders enumerates every iteration order of the maps the commit phase ranges over (pwr/bowl rebuilt with range-over-map rewritten to an explored key order).",
   "Map orders are enumerated for P1 (thorough: P2 too). The kind-change defects this check found (RC1-RC4) are all repaired in /repo (known_findings.json: fixed).", "DESIGN.md#c02"),
  "C04": ("model_checking", E1 + " over size tuples x producers x compression; choice-tape DFS (deviation bound 2) over the source pool's read slicing",
   "All 1-3 file size tuples around block multiples x {stand-alone signing, diff-time signing vs empty / identical old build}; every signature stream read back and compared hash for hash with ComputeSignature and with an independent weak+MD5 reference; read slicings of the shared source reader enumerated by deviation-bounded DFS; pristine build validates clean, also when the ValidatorContext was used on a damaged copy before (context-reuse) and for symlink destinations that are not lexically clean.",
